@@ -5,12 +5,12 @@ ENTRY = {
                 "finite universes (incl. IPv6-zoned addresses; Add/Update/Remove/LeaseChange and LoadConfig = start-up from a configuration file) with 5 invariants and 1 action property; every labelled edge TLC prints is walked through a real client.Storage "
                 "behind a real filtering.DNSFilter (edge-covering tours), comparing Find for every identifier/address, FindByName, RangeByName and the "
                 "effective filtering settings of every (ClientID, address) pair after every step; ClientSettings.tla enumerates every "
-                "(global value x own value x opt-out switch) combination of the five settings (6144 vectors, clients built as package home builds them) "
+                "(global value x own value x opt-out switch) combination of the five settings times the state of the global and the client's own blocked-services schedule (36864 vectors, clients built as package home builds them) "
                 "and each is replayed; seeded random histories over a larger universe are "
                 "recorded and validated by TraceClients.tla.",
         "design_ref": "DESIGN.md section 4 C04",
         "note": "Trusted: TLC, conc()/abs() of zz_verif_c04_test.go. Exported API only (Storage.Add/Update/RemoveByName/Find/FindByName/RangeByName, "
-                "DNSFilter.Settings+ApplyAdditionalFiltering with Storage.ApplyClientFiltering as the hook). Lookup by the text of a prefix may find "
+                "DNSFilter.Settings+ApplyAdditionalFiltering with Storage.ApplyClientFiltering as the hook). Identifiers are registered under seeded legal spellings (letter case, host bits of prefixes, the same identifier twice in one list). Lookup by the text of a prefix may find "
                 "its owner or nothing (statement silent). Single goroutine per Storage. quick replays the edges of a seeded fifth of the states.",
         "technique": "TLA+ state machine explored by TLC; edge-covering tour replay into real code + TLC trace validation",
     }
